@@ -52,6 +52,7 @@ func c22Run(r *runCtx, id string, f []string) {
 	var obs []string
 	var bad []string
 	nrec := 0
+	first := map[string][3]string{} // label set -> graphite, statsd, collectd record of the first pass
 	// formatter functions, per label set
 	for i, sm := range ms {
 		m := real[i]
@@ -78,6 +79,7 @@ func c22Run(r *runCtx, id string, f []string) {
 				obs = append(obs, "G"+hx(x))
 			}
 			obs = append(obs, "S"+hx(st), "C"+hx(cd), "V"+hx(vz))
+			first[fmt.Sprintf("%d/%d", i, j)] = [3]string{g, st, cd}
 			nrec++
 			// --- the property, on the real records ---
 			clean := true
@@ -161,6 +163,34 @@ func c22Run(r *runCtx, id string, f []string) {
 			// varz: name{...} value
 			if !strings.HasSuffix(vz, "} "+val+"\n") || !strings.HasPrefix(vz, sm.name+"{") {
 				bad = append(bad, fmt.Sprintf("varz record %q should be %s{...} %s", vz, sm.name, val))
+			}
+		}
+	}
+	// a record is a function of its label set, not of what was exported before: the same store
+	// built again and exported in the opposite order of formats gives the same records
+	if _, real2, err2 := buildStore(ms); err2 == nil {
+		for i := range ms {
+			m := real2[i]
+			c := make(chan *metrics.LabelSet)
+			go m.EmitLabelSets(c)
+			j := 0
+			for ls := range c {
+				j++
+				cd := exporter.VerifMetricToCollectd(host, m, ls, 5*time.Second)
+				st := exporter.VerifMetricToStatsd(host, m, ls, 5*time.Second)
+				g := exporter.VerifMetricToGraphite(host, m, ls, 5*time.Second)
+				if f1, ok := first[fmt.Sprintf("%d/%d", i, j)]; ok && len(bad) == 0 {
+					sortLines := func(x string) string {
+						ls := strings.Split(x, "\n")
+						sort.Strings(ls)
+						return strings.Join(ls, "\n")
+					}
+					for k, pair := range [][2]string{{sortLines(f1[0]), sortLines(g)}, {f1[1], st}, {f1[2], cd}} {
+						if pair[0] != pair[1] {
+							bad = append(bad, fmt.Sprintf("the %s record of a label set depends on the order in which formats are exported: %q after graphite-first, %q after collectd-first", []string{"graphite", "statsd", "collectd"}[k], pair[0], pair[1]))
+						}
+					}
+				}
 			}
 		}
 	}
